@@ -531,6 +531,11 @@ pub async fn settle_and_probe(d: &mut Director, p: &Profile, rng: &mut Rng) {
     d.world().bump("capacity_probes");
     // ---- optionally let objects outlive the pool
     if p.pool_drop && rng.chance(1, 2) && d.live_tasks().is_empty() {
+        // some objects idle, some still held when the last handle goes away
+        while !d.held.is_empty() && rng.chance(1, 2) {
+            let i = rng.usize_below(d.held.len());
+            d.return_obj(i);
+        }
         d.drop_pool();
         while !d.held.is_empty() {
             let i = rng.usize_below(d.held.len());
